@@ -1,4 +1,5 @@
 import Cstl.Hash.Examples
+import Cstl.Hash.Incremental
 /-
 C19 — Rehash is incremental, finishes in bounded operations, lands where
 requested.  Every operation reports (in its trace) the hash calls it made and
@@ -113,15 +114,19 @@ example : (krun Ex.hf0 Ex.tPending [.find 1 none, .find 9 none]).Spec (fun _ t' 
     t'.count = 4 ∧ t'.hash = some 2) :=
   rehash_finishes Ex.hf0 _ Ex.tPending_inv rfl ⟨trivial, fun _ _ => ⟨trivial, fun _ _ => trivial⟩⟩ rfl (by simp [Ex.tPending])
 
-/-- NOT PROVED (statement only): a keyed operation touches at most three buckets
-in the sense of chains — every other bucket keeps its chain as a suffix of its
-new chain (nodes relocated into it are put in front).  Proved instead: at most
-three buckets are detached and re-inserted (`keyed_cost_and_progress`), the
-multiset of nodes is unchanged (C03), clean bits only change from dirty to clean. -/
-def keyed_untouched_buckets_statement : Prop :=
-  ∀ (t : HT) (op : KOp), Inv hf t → t.hash.isSome → KValid t op →
-    ∀ t', (kstep hf t op).val = .ok t' →
-      ∃ touched : List Nat, touched.length ≤ 3 ∧
-        ∀ (j : Nat) (b : Bucket), j ∉ touched → t.bk[j]? = some b → ∃ b', t'.bk[j]? = some b' ∧ b.chain <:+ b'.chain
+/-- **no operation does work proportional to the table**: a keyed operation
+touches at most three buckets — every bucket outside a set of at most three
+indices keeps its chain as a suffix of its new chain (nodes relocated into it
+are put in front, nothing is removed or reordered).  Holds on every table
+state and for every `hf`. -/
+theorem keyed_touches_three (t : HT) (op : KOp) (t' : HT) (h : (kstep hf t op).val = .ok t') :
+    ∃ touched : List Nat, touched.length ≤ 3 ∧
+      ∀ (j : Nat) (b : Bucket), j ∉ touched → t.bk[j]? = some b → ∃ b', t'.bk[j]? = some b' ∧ b.chain <:+ b'.chain :=
+  keyed_untouched_buckets hf t op t' h
+
+example : ∃ t', (kstep Ex.hf0 Ex.tPending (.find 5 none)).val = .ok t' ∧
+    ∃ touched : List Nat, touched.length ≤ 3 ∧ ∀ (j : Nat) (b : Bucket), j ∉ touched → Ex.tPending.bk[j]? = some b →
+      ∃ b', t'.bk[j]? = some b' ∧ b.chain <:+ b'.chain :=
+  ⟨_, rfl, keyed_touches_three Ex.hf0 Ex.tPending (.find 5 none) _ rfl⟩
 
 end Cstl.Hash
